@@ -65,7 +65,7 @@ def task_constraints_2(H, tier):
     out.append(("TasksContiguous", [con("TasksContiguous", "c1", list_of_tasks=[R("b"), R("a")])]))
     # groups
     wins = [None] + [("iv", iv) for iv in intervals(H) if iv[1] - iv[0] >= 2][:: (1 if tier in ("thorough", "deep") else 2)] + \
-           [("len", L) for L in range(1, H + 1)]
+           [("len", L) for L in range(0, H + 1)]
     for w in wins:
         kw = {}
         if w is not None:
